@@ -62,6 +62,7 @@ def fixed_program() -> dict[str, Any]:
             exch("xc", ["s"]),
             prod("pu", "PState2", ["i", "s"], union_states=["PState", "PState2"]),
             prod("pv", "PState", ["i"], union_states=["PState2", "PState"]),
+            prod("pw", "PState", ["i", "s"], union_states=["PState", "PState2"]),
         ],
         "calls": [],
     }
@@ -206,9 +207,9 @@ def main(tier: str, seed: int) -> int:
     chk = Check(PID, tier, seed, level=CATEGORY, rule=RULE)
     chk.require("own_endpoint_accept", "tokens_harvested", "foreign_presented", "services")
     chk.assumptions += ["single caller identity (d/alice); identity binding is judged by C12", "a non-4xx error response without any hook invocation is counted as a rejection (recorded separately)"]
-    nrand = 12 if tier == "quick" else 160
+    nrand = 200 if tier == "quick" else 3000
     specs: list[Any] = ["fixed"] + [seed * 10_000 + i for i in range(nrand)]
-    jobs = [{"services": part, "tier": tier, "seed": seed} for part in shard.split(specs, 6 if tier == "quick" else 32)]
+    jobs = [{"services": part, "tier": tier, "seed": seed} for part in shard.split(specs, 12 if tier == "quick" else 48)]
     for res in shard.pmap("checks.c13", "run_shard", jobs, timeout=900.0):
         chk.merge(res)
         for k, v in res.get("extra_any", {}).items():
